@@ -6,7 +6,8 @@
         order isomorphism (Props/C11.v)
    The concrete executable model compared with the code on every run is Model/Index.v. *)
 From Coq Require Import List NArith ZArith Bool Permutation.
-From BE Require Import Model.Scan Model.Build Proofs.ScanProof Proofs.BuildProof Proofs.Glue.
+From BE Require Import Model.Scan Model.Build Model.Cursor Proofs.ScanProof Proofs.BuildProof Proofs.Glue Proofs.CursorProof Proofs.Refine Proofs.ConcreteScan.
+From BE Require Model.Index Gen.IdsGen.
 Import ListNotations.
 Local Open Scope N_scope.
 
@@ -23,4 +24,26 @@ Theorem C01_kgroups_streams_exact :
     forall x, In x r <-> exists d i c, has_conj ds d i c /\ sat_conj qval qmatch q c = true /\ x = the_cid cid_of d i c.
 Proof. exact retrieve_correct. Qed.
 
+(* Layer B, the CONCRETE k-groups loop of the executable model (Model/Index.v: retrieve_k = sort, then
+   kg_loop over field cursors with galloping SkipTo, entry ids decoded by the functions translated from
+   id_types.go): for any cursor set `cs` related to streams `ss` (Rel: each field cursor's remaining
+   entries, decoded, are a sorted permutation of its stream; its exposed entry is the group minimum), the
+   concrete fuel suffices (termination) and the collector receives, once each, exactly the conjunctions
+   that have `need` include entries and no exclude entry among the streams, each with its document id *)
+Theorem C01_concrete_kgroups_loop_exact : forall need cs ss,
+  (1 <= need)%nat -> Forall2 Rel cs ss -> (forall c, (cnt (c, true) ss <= need)%nat) ->
+  exists res, Index.retrieve_k need cs [] = Some res /\
+    (forall x, In x (map snd res) <-> sat need ss x) /\ NoDup (map snd res) /\
+    (forall h, In h res -> fst h = IdsGen.ConjID_DocID (snd h)).
+Proof. exact retrieve_k_correct. Qed.
+
+(* cursors as the model creates them (NewFieldCursor over non-empty sorted posting lists of well-formed
+   entries) are in that relation with the merged stream: the premise of the previous theorem is met *)
+Theorem C01_new_cursors_related : forall ls, ls <> [] -> Forall sortedN ls ->
+  Forall (fun l => forall x, In x l -> wf_entry x) ls ->
+  Rel (new_fcursor ls) (sort_stream (map dec (concat ls))).
+Proof. exact Rel_new. Qed.
+
 Print Assumptions C01_kgroups_streams_exact.
+Print Assumptions C01_concrete_kgroups_loop_exact.
+Print Assumptions C01_new_cursors_related.
